@@ -16,7 +16,7 @@ pub(super) async fn read_reference_sequences<R>(
 where
     R: AsyncRead + Unpin,
 {
-    let mut reference_sequences = Vec::with_capacity(reference_sequence_count);
+    let mut reference_sequences = Vec::with_capacity(reference_sequence_count.min(1 << 16));
 
     for _ in 0..reference_sequence_count {
         let reference_sequence = read_reference_sequence(reader).await?;
